@@ -8,41 +8,86 @@
    sequences (with arbitrary requests on other keys, outages and clock advances in between). *)
 From Coq Require Import List ZArith String Bool.
 From GZ Require Import Lib.RedisStore C03.Model C03.GenProofs C03.ProofsBucket C03.ProofsPeriod
-                       C03.ProofsToken C03.Proofs.
+                       C03.ProofsPeriodSpec C03.ProofsToken C03.Proofs.
 From GZgen Require Lua_period Lua_token.
 Import ListNotations.
 Open Scope string_scope.
 Open Scope Z_scope.
 
-(* PERIOD: EXACT QUOTA.  Take any state in which the key's counter is absent (never used, or
-   its period has expired), any quota, any period >= 1 s.  The first request starts the period
-   and is answered code_of 1.  Then for EVERY history [ops] shorter than the period - requests
-   on this key and on others by any callers in any order, outages, recoveries, foreign writes to
-   other keys - the answers to this key's requests are, in order, code_of 2, code_of 3, ...
-   ([expect]: the i-th counted request gets Allowed / HitQuota / OverQuota for i <, =, > quota;
-   a request during an outage gets (Unknown, error) and does not count).  Once period*1000 ms
-   have passed the counter is absent again, i.e. the next request starts a new period. *)
-Theorem period_exact_quota : forall q p key s ops,
-  1 <= p -> pdown s = false -> lookup (pstore s) key = None ->
-  forallb (calm key) ops = true -> pelapsed ops < p * 1000 ->
-  let s1 := fst (pstep q p s (PTake key)) in
-  snd (pstep q p s (PTake key)) = Some (code_of 1 q, false) /\
-  answers key ops (prun q p s1 ops) = expect q key 1 false ops /\
-  (forall d, p * 1000 <= pelapsed ops + d ->
-     lookup (pstore (fst (pstep q p (pfinal q p s1 ops) (PAdvance d)))) key = None).
+(* PERIOD: EXACT QUOTA.  [c] is any limiter configuration whose windows are >= 1 s (true for
+   period >= 1, aligned or not: [window_is_sane]).  Take any state in which the key's counter is
+   absent (never used, or its period has ended), under either expiry convention.  The first
+   request starts the period - w = window at that moment - and is answered code_of 1.  Then for
+   EVERY history [ops] shorter than w - requests on this key and on others by any callers in any
+   order, outages, recoveries, requests cut off by the circuit breaker, TTL reads, foreign writes
+   to other keys - the answers to this key's requests are, in order, code_of 2, code_of 3, ...
+   ([expect]: the i-th counted request gets Allowed / HitQuota / OverQuota for i <, =, > quota; a
+   request that does not reach Redis gets (Unknown, error) and does not count).  Once the window
+   is over ([before incl] false: elapsed >= w*1000 on miniredis, > on real Redis) the counter is
+   absent again, i.e. the next request starts a new period. *)
+Theorem period_exact_quota : forall c key s ops,
+  (forall t, 1 <= window c t) -> pdown s = false -> lookup (pstore s) key = None ->
+  forallb (calm key) ops = true ->
+  let w := window c (rnow (pstore s)) in
+  let incl := expiry_inclusive (pstore s) in
+  pelapsed ops < w * 1000 ->
+  let s1 := fst (pstep c s (PTake key true)) in
+  snd (pstep c s (PTake key true)) = PAns (code_of 1 (pquota c)) false /\
+  answers key ops (prun c s1 ops) = expect c key 1 false ops /\
+  (forall d, before incl (pelapsed ops + d) (w * 1000) = false ->
+     lookup (pstore (fst (pstep c (pfinal c s1 ops) (PAdvance d)))) key = None).
 Proof. exact period_exact_quota_all. Qed.
 Print Assumptions period_exact_quota.
 
-(* PERIOD: AN ERROR IS NEVER A GRANT.  With the store unreachable the call answers
-   (Unknown, error) and changes nothing; in every state, an answer carrying an error has code
-   Unknown, and any other code (Allowed, HitQuota, OverQuota) comes without error from a
-   reachable store. *)
-Theorem period_error_not_grant : forall q p s key,
-  (pdown s = true -> pstep q p s (PTake key) = (s, Some (Unknown, true))) /\
-  (forall c e, snd (pstep q p s (PTake key)) = Some (c, e) ->
-     (e = true -> c = Unknown) /\ (c <> Unknown -> e = false /\ pdown s = false)).
+(* calcExpireSeconds: the window is the period, or with Align() the distance (1..period s) to
+   the next multiple of the period on the local clock (unix + zone offset) *)
+Theorem window_is_sane : forall c now_ms, 1 <= pperiod c ->
+  1 <= window c now_ms <= pperiod c /\
+  (palign c = true -> (now_ms / 1000 + poffset c + window c now_ms) mod pperiod c = 0) /\
+  (palign c = false -> window c now_ms = pperiod c).
+Proof. exact window_spec. Qed.
+Print Assumptions window_is_sane.
+
+(* ALIGNED PERIOD (PeriodLimit with Align()): the period a first request starts at wall-clock
+   second [unix] (zone offset poffset) ends at the next aligned boundary: 1 <= w <= period and
+   unix + offset + w is a multiple of the period; within it the quota theorem holds verbatim.
+   Hypothesis built into the model: the caller's wall clock is the store's clock. *)
+Theorem aligned_period_quota : forall c key s ops,
+  1 <= pperiod c -> palign c = true -> pdown s = false -> lookup (pstore s) key = None ->
+  forallb (calm key) ops = true ->
+  let unix := rnow (pstore s) / 1000 in
+  let w := window c (rnow (pstore s)) in
+  let incl := expiry_inclusive (pstore s) in
+  1 <= w <= pperiod c /\ (unix + poffset c + w) mod pperiod c = 0 /\
+  (pelapsed ops < w * 1000 ->
+   let s1 := fst (pstep c s (PTake key true)) in
+   snd (pstep c s (PTake key true)) = PAns (code_of 1 (pquota c)) false /\
+   answers key ops (prun c s1 ops) = expect c key 1 false ops /\
+   (forall d, before incl (pelapsed ops + d) (w * 1000) = false ->
+      lookup (pstore (fst (pstep c (pfinal c s1 ops) (PAdvance d)))) key = None)).
+Proof. exact aligned_period_quota_all. Qed.
+Print Assumptions aligned_period_quota.
+
+(* PERIOD: AN ERROR IS NEVER A GRANT.  If the command does not reach Redis - store unreachable,
+   or go-zero's circuit breaker open (brk = false: breaker.ErrServiceUnavailable) - the call
+   answers (Unknown, error) and changes nothing; in every state, an answer carrying an error has
+   code Unknown, and any other code (Allowed, HitQuota, OverQuota) comes without error from a
+   command that reached a reachable store. *)
+Theorem period_error_not_grant : forall c s key brk,
+  ((pdown s = true \/ brk = false) -> pstep c s (PTake key brk) = (s, PAns Unknown true)) /\
+  (forall cd e, snd (pstep c s (PTake key brk)) = PAns cd e ->
+     (e = true -> cd = Unknown) /\ (cd <> Unknown -> e = false /\ pdown s = false /\ brk = true)).
 Proof. exact period_error_not_grant_all. Qed.
 Print Assumptions period_error_not_grant.
+
+(* The specification evaluated by Check.prop_ok on the implementation's answers IS the model:
+   same answers on every history (any keys, outages, breaker cut-offs, TTL reads, foreign writes
+   of ARBITRARY values: a non-integer value makes INCRBY fail -> (Unknown, error), and it stays). *)
+Theorem period_spec_refines : forall c incl base ops,
+  (forall t, 1 <= window c t) ->
+  prun c (pinit incl base) ops = sp_prun c (sp_pinit incl base) ops.
+Proof. exact period_spec_refines_all. Qed.
+Print Assumptions period_spec_refines.
 
 (* What the generated token script computes, for every store content and all arguments. *)
 Theorem tokenscript_meaning : forall st kt kts rt bs now n, 0 < rt ->
@@ -92,17 +137,19 @@ Proof. exact take_accounts. Qed.
 Print Assumptions bucket_grants_iff_holds.
 
 (* TOKEN JOINT BOUND.  n TokenLimiter instances share the key; [pre ++ mid] is ANY history of
-   AllowN calls by any instances, clock advances, outages, recoveries and monitor ticks, with
+   AllowN calls by any instances (each reaching Redis or cut off by the circuit breaker: then the
+   instance falls back exactly as for an outage), clock advances, outages, recoveries and monitor
+   ticks, under either expiry convention, with
    the hypotheses [twf] (caller-supplied now = store clock, non-decreasing; sizes >= 0).
    (a) every answer of every instance is the answer of the machine [sp_tstep] in which the
        script is replaced by ONE ideal bucket shared by all (a request for n is granted iff
        that bucket holds n) - and the fallback/monitor logic is the same;
    (b) over the interval [mid] (after any prefix [pre]) the tokens granted by the shared
        bucket to all instances together are at most burst + rate * whole seconds elapsed. *)
-Theorem token_joint_bound : forall c base n pre mid,
+Theorem token_joint_bound : forall c incl base n pre mid,
   1 <= rate c -> 0 <= burst c -> ktokens c <> kts c -> 0 <= base ->
   twf base (pre ++ mid) = true ->
-  let s0 := tinit base n in
+  let s0 := tinit incl base n in
   let a0 := mkSp (mkB (burst c) 0) base false (repeat (mkT true false) n) in
   let t1 := base + telapsed pre in
   trun c s0 (pre ++ mid) = sp_trun c a0 (pre ++ mid) /\
@@ -126,23 +173,31 @@ Print Assumptions rescue_local_bound.
 (* ---- non-vacuity ---- *)
 Definition ex_cfg := mkCfg 5 2 (BStr "{tk}.tokens") (BStr "{tk}.ts").   (* 2*burst < rate *)
 Definition ex_ops : list top :=
-  [TAllow 0 1700000000400 1 true; TAllow 1 1700000000400 1 true; TAllow 0 1700000000400 1 true;
-   TAdvance 600; TAllow 1 1700000001000 2 true; TAllow 0 1700000001000 1 true;
-   TDown; TAllow 0 1700000001000 1 true; TUp; TPing 0; TAllow 0 1700000001000 1 false].
+  [TAllow 0 1700000000400 1 true true; TAllow 1 1700000000400 1 true true; TAllow 0 1700000000400 1 true true;
+   TAdvance 600; TAllow 1 1700000001000 2 true true; TAllow 0 1700000001000 1 true true;
+   TDown; TAllow 0 1700000001000 1 true true; TUp; TPing 0; TAllow 0 1700000001000 1 false true;
+   TAllow 1 1700000001000 0 true false (* breaker open: falls back although the store is up *)].
 Example ex_token_hyps : twf 1700000000400 ex_ops = true /\ ktokens ex_cfg <> kts ex_cfg.
 Proof. split; [reflexivity|discriminate]. Qed.
 Example ex_token_run :
-  trun ex_cfg (tinit 1700000000400 2) ex_ops =
+  trun ex_cfg (tinit false 1700000000400 2) ex_ops =
   [TR true true true; TR true true true; TR false true true; TU; TR true true true; TR false true true;
-   TU; TR true false false; TU; TU; TR false true true].
+   TU; TR true false false; TU; TU; TR false true true; TR true false false].
 Proof. vm_compute. reflexivity. Qed.
 
+Definition ex_pcfg := mkPC 3 2 false 0.
 Definition ex_pops : list pop :=
-  [PTake (BStr "p:b"); PTake (BStr "p:a"); PDown; PTake (BStr "p:a"); PUp; PAdvance 1999; PTake (BStr "p:a"); PTake (BStr "p:a")].
-Example ex_period_hyps : forallb (calm (BStr "p:a")) ex_pops = true /\ pelapsed ex_pops < 2 * 1000.
-Proof. split; reflexivity. Qed.
+  [PTake (BStr "p:b") true; PTake (BStr "p:a") true; PDown; PTake (BStr "p:a") true; PUp; PTake (BStr "p:a") false;
+   PAdvance 1999; PTake (BStr "p:a") true; PTake (BStr "p:a") true].
+Example ex_period_hyps : (forall t, 1 <= window ex_pcfg t) /\ forallb (calm (BStr "p:a")) ex_pops = true /\ pelapsed ex_pops < 2 * 1000.
+Proof. split; [intro t; cbn; discriminate|split; reflexivity]. Qed.
 Example ex_period_run :
-  prun 3 2 pinit (PTake (BStr "p:a") :: ex_pops ++ [PAdvance 1; PTake (BStr "p:a")]) =
-  [Some (Allowed, false); Some (Allowed, false); Some (Allowed, false); None; Some (Unknown, true); None; None;
-   Some (HitQuota, false); Some (OverQuota, false); None; Some (Allowed, false)].
+  prun ex_pcfg (pinit true 0) (PTake (BStr "p:a") true :: ex_pops ++ [PAdvance 1; PTake (BStr "p:a") true]) =
+  [PAns Allowed false; PAns Allowed false; PAns Allowed false; PNone; PAns Unknown true; PNone; PAns Unknown true; PNone;
+   PAns HitQuota false; PAns OverQuota false; PNone; PAns Allowed false].
 Proof. vm_compute. reflexivity. Qed.
+(* aligned to the local day (86400 s, zone +8h): a first request at 2023-11-14 22:13:20 UTC
+   (06:13:20 local) gets a window of 63 999 s = until local midnight *)
+Example ex_aligned :
+  window (mkPC 5 86400 true 28800) 1700000000999 = 64000 /\ (1700000000 + 28800 + 64000) mod 86400 = 0.
+Proof. vm_compute. split; reflexivity. Qed.
